@@ -31,12 +31,36 @@ theorem oneOf_two (rec : J → J → Bool) (a b v : J) :
   rw [oneOf_spec]
   cases ha : rec a v <;> cases hb : rec b v <;> simp [List.filter, ha, hb]
 
+/-- `if` / `then` / `else`: `then` binds the instances that satisfy `if`, `else` the others -/
+theorem if_then_else_spec (rec : J → J → Bool) (c t e v : J) :
+    checkCombinators rec (.obj [("if", c), ("then", t), ("else", e)]) v = (if rec c v then rec t v else rec e v) := by
+  simp [checkCombinators, J.get, List.lookup]
+
+/-- without `if`, `then` and `else` say nothing -/
+theorem then_else_without_if_ignored (rec : J → J → Bool) (t e v : J) :
+    checkCombinators rec (.obj [("then", t), ("else", e)]) v = true := by
+  simp [checkCombinators, J.get, List.lookup]
+
+/-- `contains` (draft-07): some element; (2020-12) at least `minContains` - by default one - and at most `maxContains` -/
+theorem contains_spec_draft07 (rec : J → J → Bool) (c : J) (xs : List J) :
+    checkArray .d7 rec (.obj [("contains", c)]) xs = xs.any fun x => rec c x := by
+  have hf : decide (1 ≤ (xs.filter fun x => rec c x).length) = xs.any fun x => rec c x := by
+    induction xs with
+    | nil => simp
+    | cons x xs ih => cases h : rec c x <;> simp_all [List.filter]
+  simp [checkArray, tupleSchemas, restSchema, J.get, List.lookup, hf]
+
+theorem propertyNames_spec (rec : J → J → Bool) (c : J) (kvs : List (String × J)) :
+    checkObject rec (.obj [("propertyNames", c)]) kvs = kvs.all fun kv => rec c (.str kv.1) := by
+  simp [checkObject, J.get, List.lookup]
+
 /-- a keyword the vocabulary does not know is ignored: the verdict of a node depends on the schema object only
     through the members it looks up -/
 def keywords : List String :=
   ["$ref", "type", "enum", "const", "minimum", "maximum", "exclusiveMinimum", "exclusiveMaximum", "minLength", "maxLength",
    "pattern", "minItems", "maxItems", "prefixItems", "items", "additionalItems", "minProperties", "maxProperties", "required",
-   "properties", "additionalProperties", "allOf", "anyOf", "oneOf", "not"]
+   "properties", "additionalProperties", "allOf", "anyOf", "oneOf", "not", "contains", "minContains", "maxContains",
+   "propertyNames", "if", "then", "else"]
 
 theorem checkKeywords_congr (d : Draft) (rec : J → J → Bool) (s s' v : J)
     (h : ∀ k ∈ keywords, s.get k = s'.get k) : checkKeywords d rec s v = checkKeywords d rec s' v := by
@@ -44,18 +68,19 @@ theorem checkKeywords_congr (d : Draft) (rec : J → J → Bool) (s s' v : J)
   unfold checkKeywords checkType checkEnumConst checkBounds boundOk checkCombinators
   rw [g "type" (by decide), g "enum" (by decide), g "const" (by decide), g "minimum" (by decide), g "maximum" (by decide),
     g "exclusiveMinimum" (by decide), g "exclusiveMaximum" (by decide), g "allOf" (by decide), g "anyOf" (by decide),
-    g "oneOf" (by decide), g "not" (by decide)]
+    g "oneOf" (by decide), g "not" (by decide), g "if" (by decide), g "then" (by decide), g "else" (by decide)]
   cases v with
   | str x =>
     simp only [checkString]
     rw [g "minLength" (by decide), g "maxLength" (by decide), g "pattern" (by decide)]
   | arr xs =>
     simp only [checkArray, tupleSchemas, restSchema]
-    rw [g "minItems" (by decide), g "maxItems" (by decide), g "prefixItems" (by decide), g "items" (by decide), g "additionalItems" (by decide)]
+    rw [g "minItems" (by decide), g "maxItems" (by decide), g "prefixItems" (by decide), g "items" (by decide), g "additionalItems" (by decide),
+      g "contains" (by decide), g "minContains" (by decide), g "maxContains" (by decide)]
   | obj kvs =>
     simp only [checkObject]
     rw [g "minProperties" (by decide), g "maxProperties" (by decide), g "required" (by decide), g "properties" (by decide),
-      g "additionalProperties" (by decide)]
+      g "additionalProperties" (by decide), g "propertyNames" (by decide)]
   | null => rfl
   | bool b => rfl
   | num n => rfl
